@@ -251,6 +251,21 @@ func main() {
 		if !relClose(cen[0], wx, 12*scale) || !relClose(cen[1], wy, 12*scale) {
 			c.Failf("polygon-centroid", "centroid = %v, exact = (%v,%v) | %s", cen, wx, wy, desc())
 		}
+		// every ring spelled without its closing point: the same polygon
+		open := make(orb.Polygon, len(poly))
+		for i, rg := range poly {
+			open[i] = rg[:len(rg)-1]
+		}
+		if ocen, oa := planar.CentroidArea(open); oa != a || !relClose(ocen[0], cen[0], 12*scale) || !relClose(ocen[1], cen[1], 12*scale) {
+			c.Failf("polygon-unclosed", "CentroidArea with every ring spelled unclosed = %v, %v; closed = %v, %v | %s", ocen, oa, cen, a, desc())
+		}
+		for hi := 1; hi < len(poly); hi++ {
+			mixed := poly.Clone()
+			mixed[hi] = mixed[hi][:len(mixed[hi])-1]
+			if _, ma := planar.CentroidArea(mixed); ma != a {
+				c.Failf("polygon-unclosed", "Area with hole %d spelled unclosed = %v, closed = %v | %s", hi, ma, a, desc())
+			}
+		}
 		// second polygon far away; multi = sum, centroid = area weighted mean
 		p2r, p2ir := toRing(t, sq(8, 8, 11, 10, true))
 		if oi == 2 {
